@@ -1,12 +1,12 @@
 (* The single entry point of the extracted model: tries the per-area dispatchers in turn. *)
 Require Import Lib.Base Model.Dispatch Model.DispatchCodec Model.DispatchDict Model.DispatchSched
-        Model.DispatchTree Model.DispatchTz.
+        Model.DispatchTree Model.DispatchTz Model.DispatchRecur.
 
 Definition first_some (l : list (list N -> jv -> option jv)) (f : list N) (a : jv) : option jv :=
   fold_left (fun acc d => match acc with Some r => Some r | None => d f a end) l None.
 
 Definition dispatch_all (f : list N) (a : jv) : jv :=
-  match first_some [dispatch_codec; dispatch_dict; dispatch_sched; dispatch_tree; dispatch_tz] f a with
+  match first_some [dispatch_codec; dispatch_recur; dispatch_dict; dispatch_sched; dispatch_tree; dispatch_tz] f a with
   | Some r => r
   | None => dispatch f a
   end.
